@@ -132,6 +132,8 @@ def make_param(interp: Interp, st: St, name, kind):
     ctx = interp.ctx
     if isinstance(kind, tuple) and kind[0] == "const":
         return const(kind[1])
+    if isinstance(kind, tuple) and kind[0] == "constf":
+        return const(kind[1](interp.current_module))
     if kind == "D":
         return interp.new_datum(st, name)
     if kind in ("LD", "DUMP", "ANY", "TOTAL", "FACTORY"):
@@ -369,6 +371,7 @@ def _run_instance(c, tree, mod, label, recv, rep, timeout_ms, lookup):
     interp = Interp(ctx, vars(mod), contract_lookup=lookup, loop_specs=c.loops, unit_name=rep.name)
     interp.current_module = mod
     interp.method_disciplines = dict(c.methods)
+    interp.prefer_shadow = c.prefer_shadow
     for oname, spec in c.opaque.items():
         getter = spec[0]
         interp.opaque[getter(mod)] = (oname,) + tuple(spec[1:])
